@@ -475,7 +475,7 @@ func runDec(sizes []int, data []byte) (string, string) {
 		oracle = fmt.Sprintf("class=fragmentation-dependent %v gives %s, unfragmented %s %s@%d", sizes, impl, showMsgs(ms1), cls1, consumed1)
 	}
 	// against the flat specification
-	payloads, oversize, _ := flatParse(data)
+	payloads, oversize, rest := flatParse(data)
 	if len(ms) > len(payloads) {
 		if oversize && len(ms) > len(payloads) {
 			oracle = fmt.Sprintf("class=oversize-accepted %d messages decoded, only %d precede the oversize length", len(ms), len(payloads))
@@ -493,6 +493,37 @@ func runDec(sizes []int, data []byte) (string, string) {
 	}
 	if cls == "ok" {
 		oracle = "class=decoder-never-stops"
+	}
+	// How the stream must end, from the flat specification: clean EOF, a cut
+	// prefix or payload, an overflowing prefix, or a declared size above the limit
+	// (rejected) — a size of at most the limit is never "too large".
+	if cls != "unmarshal" && len(ms) == len(payloads) && oracle == "" {
+		want := ""
+		n, k := binary.Uvarint(rest)
+		switch {
+		case len(rest) == 0:
+			want = "eof"
+		case k == 0 && len(rest) >= binary.MaxVarintLen64:
+			want = "other" // ten continuation bytes: ReadUvarint gives up before looking further
+		case k == 0:
+			want = "ueof"
+		case k < 0 || n > limit:
+			want = "other"
+		case len(rest) == k:
+			want = "eof"
+		default:
+			want = "ueof"
+		}
+		if cls != want {
+			switch {
+			case k > 0 && n > limit:
+				oracle = fmt.Sprintf("class=oversize-accepted declared size %d ended with %s", n, cls)
+			case k > 0 && cls == "other":
+				oracle = fmt.Sprintf("class=in-range-size-rejected declared size %d (limit %d)", n, uint64(limit))
+			default:
+				oracle = fmt.Sprintf("class=wrong-ending stream ends with %s, want %s", cls, want)
+			}
+		}
 	}
 	return impl, oracle
 }
@@ -698,6 +729,7 @@ func main() {
 		}
 	}
 	hx.Main("C22", func(c *hx.Ctx) {
+		oversizeAccepted := 0
 		emit := func(line string) {
 			f := strings.Fields(line)
 			var oracle string
@@ -749,6 +781,9 @@ func main() {
 				if !strings.Contains(impl, " ok ") {
 					key = impl
 				}
+			}
+			if strings.Contains(oracle, "class=oversize-accepted") || strings.Contains(oracle, "class=panic") {
+				oversizeAccepted++
 			}
 			c.Count(f[0])
 			c.Case(line, impl, oracle, key)
@@ -835,9 +870,21 @@ func main() {
 		// Decoder on arbitrary streams.
 		big := c.Size(40000, 400000)
 		invalidPayloads := [][]byte{{0x07}, {0x0a}, {0x0a, 0x05, 0x01}, {0x0f, 0x00}, {0x0a, 0x80}}
-		oversizeLens := []uint64{limit + 1, limit + 2, 1 << 27, 1 << 31, 1<<32 + 5, 1 << 62, 1<<63 + 1, ^uint64(0)}
+		// Sizes just above the limit (a decoder that wrongly accepts them allocates ~100 MiB,
+		// which the run survives) and sizes no allocator accepts; nothing in between: a
+		// wrongly accepted 4 GiB size would stall the run instead of failing it.
+		oversizeLens := []uint64{limit + 1, limit + 2, limit + 1000, 1 << 27, 1 << 62, 1<<63 + 1, ^uint64(0)}
+		// The boundary itself, deterministically: limit+1 rejected without reading, limit and
+		// limit-1 accepted (the decoder then starves on the short payload).
+		for _, n := range []uint64{limit + 1, limit, limit - 1, limit + 2} {
+			emit(fmt.Sprintf("dec - h%s+h21", hx.Hex(uvarintOf(n))))
+			if n >= limit {
+				emit(fmt.Sprintf("dec 1,2 h00+h%s+h0a01", hx.Hex(uvarintOf(n))))
+			}
+			c.Count("dec:boundary")
+		}
 		atLimit := 0
-		for i := 0; i < c.Size(6000, 150000); i++ {
+		for i := 0; i < c.Size(6000, 80000); i++ {
 			var segs []string
 			total := 0
 			add := func(s string) {
@@ -859,7 +906,10 @@ func main() {
 				addFrame(genDesc(r, big/(1+r.Intn(4))))
 			}
 			kind := r.Intn(12)
-			if kind == 1 && (atLimit >= c.Size(2, 12) || !r.Chance(1, 20)) {
+			if kind == 0 && oversizeAccepted >= 3 {
+				kind = 6 // the decoder accepts oversize lengths: the finding is made, spare the allocations
+			}
+			if kind == 1 && (atLimit >= c.Size(0, 10) || !r.Chance(1, 20)) {
 				kind = 0 // at-limit cases make the decoder allocate the full 100 MiB (≈1 s each): keep them few
 			}
 			switch kind {
@@ -933,14 +983,14 @@ func main() {
 		algs := supportedAlgorithms()
 		c.Note("supported algorithms: " + strings.Join(algs, ","))
 		bufs := []int{16, 17, 64, 1000, 4096, 65536}
-		for i := 0; i < c.Size(3000, 120000); i++ {
+		for i := 0; i < c.Size(3000, 40000); i++ {
 			alg := algs[i%len(algs)]
 			nops := 1 + r.Intn(10)
 			ops := make([]string, 0, nops)
 			total := 0
 			bigHere := 2000
 			if r.Chance(1, 16) {
-				bigHere = c.Size(50000, 1500000)
+				bigHere = c.Size(50000, 400000)
 			}
 			for j := 0; j < nops; j++ {
 				if r.Chance(1, 3) {
